@@ -13,7 +13,8 @@ use rust_dsymbols::derived::{cover, dual};
 use rust_dsymbols::dsets::DSet;
 use rust_dsymbols::dsyms::{DSym, PartialDSym, SimpleDSym};
 use std::panic::{catch_unwind, AssertUnwindSafe};
-use verif_harness::dsgen::{all_vs, dsets, random_perm1, random_vs, Tab};
+use std::collections::HashSet;
+use verif_harness::dsgen::{all_vs, dsets, involutions, random_dset, random_perm1, random_vs, Tab};
 use verif_harness::{enc_list, Ctx, Rng};
 
 fn b(x: bool) -> u8 {
@@ -263,6 +264,76 @@ fn nr_orbits(t: &Tab) -> usize {
     t.orbit_reps2(0).len() + t.orbit_reps2(1).len()
 }
 
+/// least table over all breadth-first renumberings (one per start chamber): a complete
+/// isomorphism invariant of a connected D-set
+fn canon_key(t: &Tab) -> Vec<usize> {
+    let n = t.size;
+    let mut best: Option<Vec<usize>> = None;
+    for start in 1..=n {
+        let mut num = vec![0usize; n + 1];
+        let mut order = vec![start];
+        num[start] = 1;
+        let mut next = 2;
+        let mut qi = 0;
+        while qi < order.len() {
+            let d = order[qi];
+            qi += 1;
+            for i in 0..=t.dim {
+                let e = t.op[i][d];
+                if num[e] == 0 {
+                    num[e] = next;
+                    next += 1;
+                    order.push(e);
+                }
+            }
+        }
+        let mut key = vec![];
+        for &d in &order {
+            for i in 0..=t.dim {
+                key.push(num[t.op[i][d]]);
+            }
+        }
+        if best.is_none() || key < *best.as_ref().unwrap() {
+            best = Some(key);
+        }
+    }
+    best.unwrap()
+}
+
+/// one representative of every isomorphism class of connected complete 2D D-sets with n
+/// chambers: s0 is taken in the normal form (1 2)(3 4)…(2k-1 2k) (every D-set can be
+/// renumbered so), s2 runs over the involutions commuting with it, s1 over all involutions;
+/// classes are separated by `canon_key`.  For n ≤ 7 this gives the same class counts as the
+/// filter over all triples of involutions `dsgen::dsets(2, n, true, true, false)`
+/// (1, 7, 3, 22, 13, 70, 67; then 315, 393 for n = 8, 9).
+fn classes(n: usize) -> Vec<Tab> {
+    let invs = involutions(n, false);
+    let mut seen = HashSet::new();
+    let mut out = vec![];
+    for k in 0..=n / 2 {
+        let mut a: Vec<usize> = (0..=n).collect();
+        for c in 0..k {
+            a[2 * c + 1] = 2 * c + 2;
+            a[2 * c + 2] = 2 * c + 1;
+        }
+        for c in &invs {
+            if !(1..=n).all(|d| a[c[d]] == c[a[d]]) {
+                continue;
+            }
+            for bb in &invs {
+                let t = Tab { size: n, dim: 2, op: vec![a.clone(), bb.clone(), c.clone()], v: vec![vec![0; n + 1]; 2] };
+                if !t.is_connected() {
+                    continue;
+                }
+                if seen.insert(canon_key(&t)) {
+                    out.push(t);
+                }
+            }
+        }
+    }
+    out
+}
+
 fn main() {
     let mut ctx = Ctx::from_args();
     let th = ctx.thorough();
@@ -288,46 +359,56 @@ fn main() {
         }
     }
 
-    // (1) exhaustive small universe
-    let nmax = if th { 7 } else { 5 };
-    let vmax_small: usize = if th { 8 } else { 4 };
-    let vmax_large: usize = if th { 6 } else { 4 };
-    let cap: usize = if th { 4096 } else { 256 };
-    let sample: usize = if th { 24 } else { 6 };
+    // (1) exhaustive: every isomorphism class of connected D-sets up to the size bound ×
+    //     every branching assignment with values from the list for that size
+    let plan: Vec<(usize, Vec<usize>)> = if th {
+        vec![
+            (1, (1..=12).collect()),
+            (2, (1..=12).collect()),
+            (3, (1..=12).collect()),
+            (4, vec![1, 2, 3, 4, 5, 6, 7, 8, 10, 12]),
+            (5, (1..=8).collect()),
+            (6, (1..=6).collect()),
+            (7, (1..=6).collect()),
+            (8, (1..=4).collect()),
+            (9, (1..=3).collect()),
+        ]
+    } else {
+        vec![
+            (1, vec![1, 2, 3, 4, 5, 6, 7, 8, 10, 12]),
+            (2, vec![1, 2, 3, 4, 5, 6, 7, 8, 10, 12]),
+            (3, vec![1, 2, 3, 4, 5, 6, 7, 8, 10, 12]),
+            (4, vec![1, 2, 3, 4, 5, 6, 10]),
+            (5, (1..=4).collect()),
+            (6, (1..=4).collect()),
+            (7, (1..=3).collect()),
+        ]
+    };
     let mut serial = 0usize;
-    for n in 1..=nmax {
-        let sets = dsets(2, n, true, true, false);
-        let thin = if th && n >= 7 { 8 } else { 1 };
-        for (si, t) in sets.iter().enumerate() {
-            if thin > 1 && si % thin != (n % thin) {
-                continue;
-            }
-            let vmax = if n <= 3 { vmax_small } else { vmax_large };
-            let vals: Vec<usize> = (1..=vmax).collect();
+    for (n, vals) in &plan {
+        let n = *n;
+        // the labelled universe for the smallest sizes (every triple of involutions), class
+        // representatives beyond
+        let sets = if n <= 3 { dsets(2, n, true, true, false) } else { classes(n) };
+        for t in sets.iter() {
             let no = nr_orbits(t);
-            let product = (vals.len() as f64).powi(no as i32);
-            let syms: Vec<Tab> = if product <= cap as f64 {
-                all_vs(t, &vals)
-            } else {
-                (0..sample).map(|_| random_vs(t, &mut rng, &vals)).collect()
-            };
-            for s in &syms {
+            for s in &all_vs(t, vals) {
                 serial += 1;
                 let nontrivial = (0..2).any(|i| (1..=n).any(|d| s.v[i][d] > 1))
                     || (0..=2).any(|i| (1..=n).any(|d| s.op[i][d] == d));
-                let tag = format!("{}size={} orbits={}", if nontrivial { "nt " } else { "" }, n, no.min(8));
+                let tag = format!("{}size={} orbits={}", if nontrivial { "nt " } else { "" }, n, no);
                 let lib = n <= 3 && serial % (if th { 5 } else { 40 }) == 0;
                 symbol_cases(&mut ctx, s, serial, lib, &tag);
             }
         }
     }
 
-    // (2) a seeded sample of larger symbols
-    let (nlo, nhi, cnt) = if th { (8usize, 10usize, 600usize) } else { (6, 8, 150) };
+    // (2) a seeded sample of larger symbols with large branching numbers
+    let (nlo, nhi, cnt) = if th { (10usize, 14usize, 3000usize) } else { (8, 10, 300) };
     for c in 0..cnt {
         let n = nlo + c % (nhi - nlo + 1);
-        if let Some(t) = verif_harness::dsgen::random_dset(&mut rng, 2, n, true) {
-            let s = random_vs(&t, &mut rng, &[1, 1, 2, 3, 4, 5, 6, 12]);
+        if let Some(t) = random_dset(&mut rng, 2, n, true) {
+            let s = random_vs(&t, &mut rng, &[1, 1, 2, 3, 4, 5, 6, 9, 10, 12, 15]);
             let tag = format!("nt random size={}", n);
             serial += 1;
             symbol_cases(&mut ctx, &s, serial, false, &tag);
